@@ -6,8 +6,14 @@ import Pose.Gen.Creations
 /-!
 # C06 — batching, broadcasting and views are transparent; patching is undone
 
-Property theorems only (helpers are in `Proofs/Lemmas/Batch.lean`). Core Lean, no Mathlib.
-The model is `Pose/Model/Batch.lean`; `Pose/Gen/Handled.lean` is regenerated from `/repo` on every run.
+Clause-carrying theorems only.  Proofs of the long ones, corollaries, table facts and restatements live in
+`Proofs/Lemmas/Batch.lean` (primed names).  Core Lean, no Mathlib.  Axioms used: ⊆ {propext, Classical.choice, Quot.sound}
+(`Classical.choice` enters through `simp` / `omega` / `decide` on `Nat` and `List`; no theorem states a classical axiom).
+The model is `Pose/Model/Batch.lean`; `Pose/Gen/*.lean` are regenerated from `/repo` on every run.
+
+Not covered by an item-wise THEOREM (they do not go through the modelled `binop` site; batched = item-wise is decided for them by
+the `regime` / `unary` / `large` streams against the same call on single items): `matrix`, `Jr`, `euler`, `rotation` /
+`translation` / `scale`, the conversions of `convert.py`, `cumops` (C12).  `Retr` and the algebra's `add` are covered below.
 -/
 namespace PP.Batch
 
@@ -39,14 +45,8 @@ theorem broadcast_comm (a b : Shape) : broadcastShapes a b = broadcastShapes b a
 
 /-- The broadcast of two scalar batches only: a scalar result forces both operands to be scalar batches
 (this is when the code substitutes `shape = (1,)`). -/
-theorem broadcast_nil {a b : Shape} (h : broadcastShapes a b = some []) : a = [] ∧ b = [] := by
-  unfold broadcastShapes at h
-  simp only at h
-  have hl := bzip_length h
-  rw [padTo_length (Nat.le_max_left _ _)] at hl
-  have ha : a.length = 0 := by have := Nat.le_max_left a.length b.length; simp at hl; omega
-  have hb : b.length = 0 := by have := Nat.le_max_right a.length b.length; simp at hl; omega
-  exact ⟨List.eq_nil_of_length_eq_zero ha, List.eq_nil_of_length_eq_zero hb⟩
+theorem broadcast_nil {a b : Shape} (h : broadcastShapes a b = some []) : a = [] ∧ b = [] :=
+  broadcast_nil' h
 
 /-- The projections used for pairing address real items of both operands. -/
 theorem proj_valid {a b out : Shape} (h : broadcastShapes a b = some out) (i : List Nat) (hi : inb out i) :
@@ -61,42 +61,15 @@ theorem broadcast_itemwise {α β γ : Type} (f : α → β → γ) (dOut dDecl 
     (x : T α) (y : T β) (out : Shape) (h : broadcastShapes x.shape y.shape = some out) :
     ∃ r, binop f dOut dDecl x y = some r ∧ r.shape = out ∧
       r.last = (if numel out = 0 then dDecl else dOut) ∧
-      ∀ i, inb out i → r.get i = f (x.get (proj x.shape i)) (y.get (proj y.shape i)) := by
-  have hn : numel (if out = [] then [1] else out) = numel out := by
-    by_cases ho : out = []
-    · subst ho; simp [numel]
-    · simp [ho]
-  unfold binop broadcastInputs
-  simp only [h, hn]
-  by_cases h0 : numel out = 0
-  · -- empty batch: `dim = dDecl`, `view(out_shape + (dDecl,))` of 0 scalars
-    simp only [h0, Nat.zero_mul, ne_eq, not_true_eq_false, if_false, viewLast, if_true]
-    refine ⟨_, rfl, rfl, rfl, ?_⟩
-    intro i hi
-    have := numel_pos_of_inb hi
-    omega
-  · have hne : numel out * dOut ≠ 0 := Nat.mul_ne_zero h0 (by omega)
-    simp only [hne, ne_eq, not_false_eq_true, if_true, viewLast, h0, if_false, Nat.mul_mod_right]
-    have hdiv : numel out * dOut / numel out = dOut := Nat.mul_div_cancel_left _ (by omega)
-    refine ⟨_, rfl, rfl, by simp [hdiv], ?_⟩
-    intro i hi
-    simp only [Out.get, flatExpand]
-    by_cases ho : out = []
-    · subst ho
-      obtain ⟨ha, hb⟩ := broadcast_nil h
-      cases i with
-      | nil => simp [ha, hb, proj, projEq, unravel, ravel]
-      | cons _ _ => simp [inb] at hi
-    · simp only [ho, if_false]
-      rw [unravel_ravel' hi]
+      ∀ i, inb out i → r.get i = f (x.get (proj x.shape i)) (y.get (proj y.shape i)) :=
+  broadcast_itemwise' f dOut dDecl hd x y out h
 
 /-- Corollary in the form the op sites use it (`dDecl = dOut`): the last extent is always the documented one,
 including for empty batches (the `dim = … else p.shape[-1]` branch). -/
 theorem broadcast_lastdim {α β γ : Type} (f : α → β → γ) (d : Nat) (hd : 0 < d)
     (x : T α) (y : T β) (out : Shape) (h : broadcastShapes x.shape y.shape = some out) :
-    ∃ r, binop f d d x y = some r ∧ r.shape = out ∧ r.last = d := by
-  obtain ⟨r, h1, h2, h3, _⟩ := broadcast_itemwise f d d hd x y out h
-  exact ⟨r, h1, h2, by rw [h3]; split <;> rfl⟩
+    ∃ r, binop f d d x y = some r ∧ r.shape = out ∧ r.last = d :=
+  broadcast_lastdim' f d hd x y out h
 
 /-- a shape broadcasts with itself to itself (the same-shape call is the un-broadcast op) -/
 theorem broadcast_self (s : Shape) : broadcastShapes s s = some s := by
@@ -155,23 +128,6 @@ theorem broadcast_iff (a b out : Shape) :
     exact bzip_of_spec _ _ out (by rw [padTo_length]; rw [hl]; exact Nat.le_max_left _ _)
       (by rw [padTo_length]; rw [hl]; exact Nat.le_max_right _ _) h
 
-/-- the broadcast result is unique and not broadcastable means: no lshape satisfies the rule -/
-theorem broadcast_none_iff (a b : Shape) : broadcastShapes a b = none ↔ ¬ ∃ out, broadcastShapes a b = some out := by
-  cases broadcastShapes a b <;> simp
-
-/-- **`broadcastShapes` is what torch computes**: the loop of `torch._refs._broadcast_shapes` (initialise with ones, merge
-every shape from the trailing end, positions a shape lacks stay) returns the same lshape — or raises — for every pair
-of shapes of every rank, extents 0 and 1 included. -/
-theorem broadcastShapes_eq_torch (a b : Shape) : broadcastShapes a b = torchBroadcast a b := by
-  rw [broadcastShapes_eq_bcastRev _ a b rfl]
-  unfold torchBroadcast
-  simp only
-  rw [mergeRev_ones _ _ (by simp; exact Nat.le_max_left _ _)]
-  simp only [List.length_reverse]
-  have := mergeRev_pad a.reverse b.reverse
-  simp only [List.length_reverse] at this
-  rw [this]
-
 /-- the item dimension rides along: broadcasting the full shapes `lshape ++ [d]` is broadcasting the lshapes -/
 theorem broadcast_append_last (a b : Shape) (d : Nat) :
     broadcastShapes (a ++ [d]) (b ++ [d]) = (broadcastShapes a b).map (· ++ [d]) := by
@@ -181,49 +137,7 @@ theorem broadcast_append_last (a b : Shape) (d : Nat) :
   rw [this]
   cases bcastRev a.reverse b.reverse <;> simp
 
-example : torchBroadcast [2, 1, 3] [4, 1] = some [2, 4, 3] ∧ torchBroadcast [0, 3] [3] = some [0, 3] ∧
-    torchBroadcast [2] [3] = none ∧ torchBroadcast [] [1, 0] = some [1, 0] := by decide
-
-
-/-! ## unary ops -/
-
-/-- Unary ops act item by item and keep the lshape — for every shape. -/
-theorem unop_itemwise {α γ : Type} (f : α → γ) (d : Nat) (x : T α) (i : List Nat) :
-    (unop f d x).shape = x.shape ∧ (unop f d x).last = d ∧ (unop f d x).get i = f (x.get i) := by
-  simp [unop, Out.get, T.get]
-
-/-- The `broadcast_inputs(x, None)` route (flatten, kernel, view back) is the same item-wise map, for every
-shape including empty ones. -/
-theorem unopFlat_itemwise {α γ : Type} (f : α → γ) (d : Nat) (hd : 0 < d) (x : T α) :
-    unopFlat f d d x = some (unop f d x) := by
-  unfold unopFlat broadcastInput1 unop
-  simp only
-  by_cases h0 : numel x.shape = 0
-  · simp [h0, viewLast]
-  · have hne : numel x.shape * d ≠ 0 := Nat.mul_ne_zero h0 (by omega)
-    simp only [hne, ne_eq, not_false_eq_true, if_true, viewLast, h0, if_false, Nat.mul_mod_right]
-    rw [Nat.mul_div_cancel_left _ (by omega)]
-
-/-! ## locality: no batch-level decisions -/
-
-/-- **An output item depends only on the two items it is paired with** (no batch-level decision): changing any
-other item of either operand — same shapes — leaves `out[i]` unchanged. This is the clause a batch-level
-`.any()/.all()` switch violates. -/
-theorem binop_local {α β γ : Type} (f : α → β → γ) (d : Nat) (hd : 0 < d) (x x' : T α) (y y' : T β) (out : Shape)
-    (hx : x'.shape = x.shape) (hy : y'.shape = y.shape) (h : broadcastShapes x.shape y.shape = some out)
-    (i : List Nat) (hi : inb out i)
-    (hxi : x'.get (proj x.shape i) = x.get (proj x.shape i)) (hyi : y'.get (proj y.shape i) = y.get (proj y.shape i)) :
-    ∃ r r', binop f d d x y = some r ∧ binop f d d x' y' = some r' ∧ r'.shape = r.shape ∧ r'.get i = r.get i := by
-  obtain ⟨r, h1, h2, _, h4⟩ := broadcast_itemwise f d d hd x y out h
-  have h' : broadcastShapes x'.shape y'.shape = some out := by rw [hx, hy]; exact h
-  obtain ⟨r', h1', h2', _, h4'⟩ := broadcast_itemwise f d d hd x' y' out h'
-  refine ⟨r, r', h1, h1', by rw [h2, h2'], ?_⟩
-  rw [h4 i hi, h4' i hi, hx, hy, hxi, hyi]
-
-/-- the unary version: `out[i]` depends on `x[i]` only -/
-theorem unop_local {α γ : Type} (f : α → γ) (d : Nat) (x x' : T α) (_hs : x'.shape = x.shape) (i : List Nat)
-    (hxi : x'.get i = x.get i) : (unop f d x').get i = (unop f d x).get i := by
-  rw [(unop_itemwise f d x' i).2.2, (unop_itemwise f d x i).2.2, hxi]
+/-! ## batched = the op on the single pair -/
 
 /-- batched = the op on the single item: a one-item (scalar-batch) call on `x[π₁ i]`, `y[π₂ i]` returns `out[i]` -/
 theorem binop_single {α β γ : Type} (f : α → β → γ) (d : Nat) (hd : 0 < d) (x : T α) (y : T β) (out : Shape)
@@ -237,6 +151,15 @@ theorem binop_single {α β γ : Type} (f : α → β → γ) (d : Nat) (hd : 0 
   refine ⟨r, r1, h1, g1, g2, ?_⟩
   rw [g4 [] (by simp [inb]), h4 i hi]
   simp [T.get]
+
+example : (binop (fun a b => (a, b)) 3 3 ⟨[2, 1], fun k => k⟩ ⟨[3], fun k => k⟩).map
+    (fun r => (r.shape, r.last, (List.range 6).map r.data)) =
+    some ([2, 3], 3, [(0, 0), (0, 1), (0, 2), (1, 0), (1, 1), (1, 2)]) := by decide
+
+example : (binop (fun (a b : Nat) => (a, b)) 3 3 ⟨[0, 1], fun k => k⟩ ⟨[3], fun k => k⟩).map (fun r => (r.shape, r.last)) =
+    some ([0, 3], 3) ∧
+    (binop (fun (a b : Nat) => (a, b)) 3 3 ⟨[], fun k => k⟩ ⟨[], fun k => k⟩).map (fun r => (r.shape, r.last, r.data 0)) =
+    some ([], 3, (0, 0)) := by decide
 
 /-! ## `LieTensor.add` (the D14 repair: expand, clone, in-place retraction) -/
 
@@ -263,6 +186,44 @@ theorem add_itemwise {α β : Type} (retr : β → α → α) (d : Nat) (hd : 0 
 theorem add_raises {α β : Type} (retr : β → α → α) (d : Nat) (x : T α) (a : T β)
     (h : broadcastShapes x.shape a.shape = none) : addOp retr d x a = none := by
   unfold addOp; simp [h]
+
+/-- `X.add(a, alpha)`: the scaled retraction item by item — `alpha` multiplies `other` before anything else (for every
+`alpha`, negative and zero included: `scale` is any item-level map) -/
+theorem add_alpha_itemwise {α β : Type} (retr : β → α → α) (scale : β → β) (d : Nat) (hd : 0 < d) (x : T α) (a : T β) (out : Shape)
+    (h : broadcastShapes x.shape a.shape = some out) :
+    ∃ r, addAlphaOp retr scale d x a = some r ∧ r.shape = out ∧ r.last = d ∧
+      ∀ i, inb out i → r.get i = retr (scale (a.get (proj a.shape i))) (x.get (proj x.shape i)) := by
+  obtain ⟨r, h1, h2, h3, h4⟩ := add_itemwise retr d hd x ⟨a.shape, fun k => scale (a.data k)⟩ out h
+  exact ⟨r, h1, h2, h3, fun i hi => by rw [h4 i hi]; rfl⟩
+
+/-- the algebra's `x + a` (`input.copy_(other1 + other2[..., :m])` on the expanded clone): plain torch broadcasting, item by item -/
+theorem alg_add_itemwise {α β : Type} (plus : α → β → α) (d : Nat) (hd : 0 < d) (x : T α) (a : T β) (out : Shape)
+    (h : broadcastShapes x.shape a.shape = some out) :
+    ∃ r, algAddOp plus d x a = some r ∧ r.shape = out ∧ r.last = d ∧
+      ∀ i, inb out i → r.get i = plus (x.get (proj x.shape i)) (a.get (proj a.shape i)) := by
+  have h2 : broadcastShapes (expandClone x out).shape a.shape = some out := by
+    show broadcastShapes out a.shape = some out
+    rw [broadcastShapes_comm]; exact broadcastShapes_absorb h
+  obtain ⟨r, hr, hs, hl, hv⟩ := broadcast_itemwise plus d d hd (expandClone x out) a out h2
+  have hl' : r.last = d := by rw [hl]; split <;> rfl
+  refine ⟨r, ?_, hs, hl', ?_⟩
+  · unfold algAddOp
+    simp only [h, hr, hs, hl', and_self, if_true]
+  · intro i hi
+    rw [hv i hi]
+    congr 1
+    show (expandClone x out).data (ravel out (proj out i)) = _
+    rw [proj_self hi]
+    simp only [expandClone, flatExpand]
+    rw [unravel_ravel' hi]
+
+/-- `X.Retr(a)` = `a.Exp() * X`: `Exp` on every item of `a`, then the product site — item by item under broadcasting -/
+theorem retr_itemwise {α β γ : Type} (exp : β → γ) (mul : γ → α → α) (d : Nat) (hd : 0 < d) (x : T α) (a : T β) (out : Shape)
+    (h : broadcastShapes a.shape x.shape = some out) :
+    ∃ r, retrOp exp mul d x a = some r ∧ r.shape = out ∧ r.last = d ∧
+      ∀ i, inb out i → r.get i = mul (exp (a.get (proj a.shape i))) (x.get (proj x.shape i)) := by
+  obtain ⟨r, h1, h2, h3, h4⟩ := broadcast_itemwise mul d d hd ⟨a.shape, (unop exp d a).data⟩ x out h
+  exact ⟨r, h1, h2, by rw [h3]; split <;> rfl, fun i hi => by rw [h4 i hi]; rfl⟩
 
 /-! ## `__torch_function__`: ltype propagation -/
 
@@ -331,6 +292,14 @@ theorem firstLtype_isSome (args : List Leaf) (t : Nat) (h : Leaf.lie t ∈ args)
 example : torchFunction ["cat"] "cat" [.other, .tensor, .lie 2, .lie 5] [.tensor, .other] = some [.lie 2, .other] := by
   decide
 
+/-- with a `pp.Parameter` among the operands a handled in-place function no longer returns its own `self` object: the
+LieTensor it returns is wrapped again (same ltype when `self` is the first LieTensor argument) -/
+theorem param_operand_rewraps (handled : List String) (name : String) (t p : Nat) (rest : List Obj)
+    (hn : name ∈ handled) :
+    torchFunctionCls handled name (.lie t :: .param p :: rest) [.lie t] = some [(.lie t, false)] ∧
+    torchFunctionCls handled name (.lie t :: .lie p :: []) [.lie t] = some [(.lie t, true)] := by
+  simp [torchFunctionCls, hn, firstLtype, Obj.erase, clsIsParam, wrapObj]
+
 /-! ## the handled-function list (regenerated from the source) -/
 
 /-- Every entry of the library's `HANDLED_FUNCTIONS` — the list as it is in `/repo` right now — has a semantics
@@ -340,11 +309,10 @@ theorem handled_classified : ∀ n ∈ PP.Gen.handled, (semOf n).isSome = true :
 /-- Every shape-only function the property text names is in the library's list. -/
 theorem handled_required : ∀ n ∈ required, n ∈ PP.Gen.handled := by decide
 
-/-- The only listed function whose result is not a selection of input items is `scatter_add`; the only ones
-addressed by scalar positions are `take` and `masked_select`. -/
-theorem handled_nonselection : ∀ n ∈ PP.Gen.handled,
-    (semOf n = some Sem.accumulate → n = "scatter_add") ∧
-    (semOf n = some Sem.element → n = "take" ∨ n = "masked_select") := by decide
+/-- the in-place entries of the regenerated list are exactly the names the property's convention marks (trailing underscore /
+`__setitem__`); proof in `Proofs/Lemmas/Batch.lean` -/
+theorem handled_inplace_names : ∀ n ∈ PP.Gen.handled,
+    ((semOf n).map effectOf = some Effect.inplace) = (inplaceName n = true) := handled_inplace_iff_name
 
 /-! ## shape-only functions are gathers of items -/
 
@@ -471,157 +439,46 @@ theorem scatter_gather (s si ssrc : Shape) (dim : Nat) (index : Nat → Nat) (hd
 
 example : ((IMap.id [2, 3]).steps [.permute [1, 0], .index 0 [2, 0], .reshape [4]]).map
     (fun m => (m.out, (List.range 4).map m.src)) = some ([4], [2, 5, 0, 3]) := by decide
+
 example : (catFlat [[2, 1], [2, 2]] 1).map (fun r => (r.1, (List.range 6).map r.2)) =
     some ([2, 3], [(0, 0), (1, 0), (1, 1), (0, 1), (1, 2), (1, 3)]) := by decide
 
 /-! non-vacuity of the hypotheses above: every kind of step / map is accepted on concrete non-trivial shapes -/
+
 example : ((Step.reshape [3, 2]).apply [2, 3]).map (·.1) = some [3, 2] ∧
     ((Step.permute [2, 0, 1]).apply [2, 3, 4]).map (·.1) = some [4, 2, 3] ∧
     ((Step.index 1 [2, 2, 0]).apply [2, 3]).map (·.1) = some [2, 3] ∧
     ((Step.expand [4, 2, 3]).apply [2, 1]).map (·.1) = some [4, 2, 3] ∧
     ((Step.repeat_ [2, 1, 2]).apply [2, 3]).map (·.1) = some [2, 2, 6] ∧
     ((Step.expand [2, 2]).apply [2, 3]).map (·.1) = none ∧ ((Step.index 0 [2]).apply [2, 3]).map (·.1) = none := by decide
+
 example : (overwriteFlat [2, 3] 1 [2, 0]).map (fun r => (r.1, (List.range 6).map r.2)) =
     some ([2, 3], [(1, 1), (0, 1), (1, 0), (1, 3), (0, 4), (1, 2)]) := by decide
+
 example : (gatherFlat [2, 3] [1, 3] 0 (fun k => [1, 0, 1].getD k 0)).map (fun r => (r.1, (List.range 3).map r.2)) =
     some ([1, 3], [3, 1, 5]) := by decide
+
 example : (List.range 6).map (scatterFlat [2, 3] [1, 3] [1, 3] 0 (fun k => [1, 0, 1].getD k 0)) =
     [(0, 0), (1, 1), (0, 2), (1, 0), (0, 4), (1, 2)] := by decide
-example : (binop (fun a b => (a, b)) 3 3 ⟨[2, 1], fun k => k⟩ ⟨[3], fun k => k⟩).map
-    (fun r => (r.shape, r.last, (List.range 6).map r.data)) =
-    some ([2, 3], 3, [(0, 0), (0, 1), (0, 2), (1, 0), (1, 1), (1, 2)]) := by decide
-example : (binop (fun (a b : Nat) => (a, b)) 3 3 ⟨[0, 1], fun k => k⟩ ⟨[3], fun k => k⟩).map (fun r => (r.shape, r.last)) =
-    some ([0, 3], 3) ∧
-    (binop (fun (a b : Nat) => (a, b)) 3 3 ⟨[], fun k => k⟩ ⟨[], fun k => k⟩).map (fun r => (r.shape, r.last, r.data 0)) =
-    some ([], 3, (0, 0)) := by decide
 
-/-! ## ltypes, op signatures, memory effects, syntactic purity (pass 3) -/
+/-! ## the LieType table regenerated from the source -/
 
 /-- the generated LieType table of `/repo` is the documented one (names, dimension, embedding, manifold; all eight) -/
 theorem ltypes_table : PP.Gen.ltypes.length = 8 ∧ ∀ t ∈ LT.all, (t.className, t.dims.1, t.dims.2.1, t.dims.2.2) ∈ PP.Gen.ltypes := by
   decide
 
-/-- structure of the table: an algebra has dimension = manifold, its group one more; both share embedding and manifold -/
-theorem ltypes_structure : ∀ t ∈ LT.all,
-    t.algebra.onManifold = true ∧ t.group.onManifold = false ∧ t.group.dim = t.algebra.dim + 1 ∧
-    t.group.dims.2.1 = t.group.dim ∧ t.algebra.dims.2.1 = t.group.dim ∧ t.algebra.manifold = t.group.manifold ∧
-    t.algebra.dim = t.algebra.manifold := by decide
+/-! ## static lint over tables emitted by `harness/extract.py` (python `ast`; the extractor is TRUSTED, these are `decide`
+over its output: they say "this source text passes the lint", not more) -/
 
-/-- Exp and Log are defined exactly on algebras / groups and are mutually inverse on ltypes -/
-theorem sig_exp_log : ∀ t ∈ LT.all,
-    ((sig .Exp t).isSome = t.onManifold) ∧ ((sig .Log t).isSome = !t.onManifold) ∧
-    (t.onManifold = true → sig .Exp t = some (.lie t.group) ∧ sig .Log t.group = some (.lie t)) ∧
-    (t.onManifold = false → sig .Log t = some (.lie t.algebra) ∧ sig .Exp t.algebra = some (.lie t)) := by decide
-
-/-- every LieTensor an op returns passes the constructor's shape assertion, for every lshape: the `LieTensor(out, ltype=…)`
-wrapping inside the ops never trips `__init__`'s check -/
-theorem sig_init_ok (op : Op) (t r : LT) (ls : Shape) (_h : sig op t = some (.lie r)) : initOk r ((Res.lie r).shape ls) = true := by
-  simp [initOk, Res.shape]
-
-/-- the item width the binary op sites pass to `view` (`dOut`) is the dimension of the ltype they wrap the result in -/
-theorem sig_binop_dout : ∀ t ∈ LT.all, t.onManifold = false →
-    sig .Mul t = some (.lie t) ∧ sig .Retr t = some (.lie t) ∧ sig .add t = some (.lie t) ∧
-    sig .Adj t = some (.lie t.algebra) ∧ sig .AdjT t = some (.lie t.algebra) ∧ sig .Jinvp t = some (.lie t.algebra) ∧
-    t.algebra.dim = t.manifold := by decide
-
-/-- group-only ops raise on algebras; `Jr` exists for SO3 / so3 only -/
-theorem sig_errors : ∀ t ∈ LT.all,
-    (t.onManifold = true → sig .Mul t = some (.lie t) ∧ sig .Act3 t = none ∧ sig .Act4 t = none ∧ sig .Retr t = none ∧ sig .Adj t = none ∧
-      sig .AdjT t = none ∧ sig .Jinvp t = none ∧ sig .Log t = none) ∧
-    ((sig .Jr t).isSome = decide (t.group = LT.SO3)) := by decide
-
-/-- a batched binary op site returns, for every broadcastable lshape pair, exactly the shape of the signature table:
-broadcast lshape followed by the result ltype's dimension — and that shape passes `LieTensor.__init__` -/
-theorem op_result_shape {α β γ : Type} (f : α → β → γ) (op : Op) (t r : LT) (hs : sig op t = some (.lie r)) (x : T α) (y : T β)
-    (out : Shape) (h : broadcastShapes x.shape y.shape = some out) :
-    ∃ res, binop f r.dim r.dim x y = some res ∧ res.shape ++ [res.last] = (Res.lie r).shape out ∧
-      initOk r (res.shape ++ [res.last]) = true := by
-  have hd : 0 < r.dim := by cases r <;> decide
-  obtain ⟨res, h1, h2, h3⟩ := broadcast_lastdim f r.dim hd x y out h
-  refine ⟨res, h1, by simp [Res.shape, h2, h3], by simp [initOk, h3]⟩
-
-/-! memory effects -/
-
-/-- every handled function of the regenerated list has a memory effect in the model -/
-theorem handled_effects_defined : ∀ n ∈ PP.Gen.handled, ((semOf n).map effectOf).isSome = true := by decide
-
-/-- **the in-place functions of the list are exactly those the naming convention marks** (trailing underscore /
-`__setitem__`) — over the list as it is in `/repo` now -/
-theorem handled_inplace_iff_name : ∀ n ∈ PP.Gen.handled,
-    ((semOf n).map effectOf = some Effect.inplace) = (inplaceName n = true) := by decide
-
-/-- an effect other than `inplace` leaves every existing slot as it was (and never frees one) -/
-theorem effect_pure {α : Type} (e : Effect) (he : e ≠ .inplace) (st : Store α) (self : Nat) (val : α) :
-    (∀ s, s < st.next → (applyEffect e st self val).1.mem s = st.mem s) ∧ st.next ≤ (applyEffect e st self val).1.next := by
-  cases e with
-  | fresh =>
-    refine ⟨fun s hs => ?_, by simp [applyEffect]⟩
-    simp only [applyEffect]
-    have : s ≠ st.next := by omega
-    simp [this]
-  | view => exact ⟨fun _ _ => rfl, Nat.le_refl _⟩
-  | inplace => exact absurd rfl he
-
-/-- **Non-mutation of the handled functions in the model**: every function of the regenerated list whose name carries no
-trailing underscore leaves every operand slot untouched — all existing memory is bit for bit what it was. -/
-theorem handled_nonunderscore_pure {α : Type} (n : String) (hn : n ∈ PP.Gen.handled) (hu : inplaceName n = false)
-    (st : Store α) (self : Nat) (val : α) :
-    ∃ r, applyHandled n st self val = some r ∧ ∀ s, s < st.next → r.1.mem s = st.mem s := by
-  have hdef := handled_effects_defined n hn
-  have hiff := handled_inplace_iff_name n hn
-  unfold applyHandled
-  cases hs : semOf n with
-  | none => simp [hs] at hdef
-  | some sem =>
-    simp only [Option.map_some]
-    refine ⟨_, rfl, ?_⟩
-    have hne : effectOf sem ≠ .inplace := by
-      intro he
-      rw [hs] at hiff
-      simp only [Option.map_some, he, hu] at hiff
-      simp at hiff
-    exact (effect_pure (effectOf sem) hne st self val).1
-
-/-- **Purity over histories**: any sequence of handled functions of the regenerated list, none of which carries a trailing
-underscore, leaves every slot that existed at the start bit for bit unchanged — however long the sequence and whatever
-operands (including results of earlier calls) it uses. -/
-theorem handled_history_pure {α : Type} : ∀ (calls : List (String × Nat × α)) (st : Store α),
-    (∀ c ∈ calls, c.1 ∈ PP.Gen.handled ∧ inplaceName c.1 = false) →
-    ∃ st', runHandled st calls = some st' ∧ st.next ≤ st'.next ∧ ∀ s, s < st.next → st'.mem s = st.mem s
-  | [], st, _ => ⟨st, rfl, Nat.le_refl _, fun _ _ => rfl⟩
-  | (n, self, v) :: rest, st, h => by
-    have hc := h (n, self, v) List.mem_cons_self
-    obtain ⟨r, hr, hpure⟩ := handled_nonunderscore_pure n hc.1 hc.2 st self v
-    have hnext : st.next ≤ r.1.next := by
-      unfold applyHandled at hr
-      cases hs : semOf n with
-      | none => simp [hs] at hr
-      | some sem =>
-        simp only [hs, Option.map_some, Option.some.injEq] at hr
-        subst hr
-        cases effectOf sem <;> simp [applyEffect]
-    obtain ⟨st', h1, h2, h3⟩ := handled_history_pure rest r.1 (fun c hcm => h c (List.mem_cons_of_mem _ hcm))
-    refine ⟨st', by simp [runHandled, hr, h1], Nat.le_trans hnext h2, ?_⟩
-    intro s hs
-    rw [h3 s (by omega), hpure s hs]
-
-example : ((runHandled (⟨fun s => 10 * s, 2⟩ : Store Nat) [("cat", 0, 7), ("permute", 2, 8), ("index_copy", 1, 9)]).map
-    fun st => ((List.range 4).map st.mem, st.next)) = some ([0, 10, 7, 9], 4) := by decide
-
-/-- an in-place function writes its first operand's slot only -/
-theorem effect_inplace_local {α : Type} (st : Store α) (self : Nat) (val : α) :
-    (applyEffect .inplace st self val).2 = self ∧ (applyEffect .inplace st self val).1.mem self = val ∧
-    ∀ s, s ≠ self → (applyEffect .inplace st self val).1.mem s = st.mem s := by
-  refine ⟨rfl, by simp [applyEffect], fun s hs => by simp [applyEffect, hs]⟩
-
-/-! syntactic purity of the source -/
-
-/-- **No public function of the anchored files without a trailing underscore writes in place through anything that may
+/-- (static lint) **No public function of the anchored files without a trailing underscore writes in place through anything that may
 alias one of its arguments** — a finite table regenerated from `/repo`'s source on every run (python `ast`; the alias rules
 are those of `harness/extract.py`), so `decide` is a proof about exactly this source text. -/
 theorem source_purity : ∀ f ∈ PP.Gen.functions, f.2.2.1 = true → f.2.2.2.1 = false → f.2.2.2.2 = [] := by decide +kernel
 
-/-- **Every constant the anchored code creates gets its dtype from an operand, from the caller's keywords, or is an integer
+/-- the table is not vacuous: it does see the in-place API (`add_`, `identity_`, `cumops_`, …) -/
+theorem source_inplace_seen : ∃ f ∈ PP.Gen.functions, f.2.1 = "LieTensor.add_" ∧ f.2.2.2.2 ≠ [] := by decide +kernel
+
+/-- (static lint) **Every constant the anchored code creates gets its dtype from an operand, from the caller's keywords, or is an integer
 index** — or is one of the nine reviewed conversions of python data (`reviewedCreations`).  Regenerated from the source
 on every run: a new `torch.eye(3, device=…)` without `dtype=` (seed C06-4: float32 operand + float64 default ⇒ float64
 result) no longer builds. -/
@@ -633,363 +490,98 @@ theorem creations_reviewed_live : ∀ r ∈ reviewedCreations, ∃ c ∈ PP.Gen.
 example : creationOk ("lietensor/lietensor.py", "so3Type.Jr", "torch.eye(3, device=X.device)", "implicit") = false ∧
     creationOk ("lietensor/lietensor.py", "so3Type.Jr", "torch.eye(3, device=X.device, dtype=X.dtype)", "dtype") = true := by decide
 
-/-- the table is not vacuous: it does see the in-place API (`add_`, `identity_`, `cumops_`, …) -/
-theorem source_inplace_seen : ∃ f ∈ PP.Gen.functions, f.2.1 = "LieTensor.add_" ∧ f.2.2.2.2 ≠ [] := by decide +kernel
+/-! ## `retain_ltype` / `func.jacrev`
 
-example : sig .Exp .se3 = some (.lie .SE3) ∧ sig .Exp .SE3 = none ∧ sig .Jinvp .Sim3 = some (.lie .sim3) ∧ sig .Act4 .RxSO3 = some (.tensor [4]) ∧
-    sig .matrix .so3 = some (.tensor [3, 3]) ∧ sig .Jr .SE3 = none ∧ (Res.lie LT.sim3).shape [2, 0, 3] = [2, 0, 3, 7] ∧
-    initOk .SE3 [5, 7] = true ∧ initOk .SE3 [5, 8] = false := by decide
-example : inplaceName "copy_" = true ∧ inplaceName "__setitem__" = true ∧ inplaceName "__getitem__" = false ∧ inplaceName "clone" = false ∧
-    (semOf "index_copy_").map effectOf = some Effect.inplace ∧ (semOf "index_copy").map effectOf = some Effect.fresh ∧
-    (semOf "view").map effectOf = some Effect.view := by decide
-example : let st : Store Nat := ⟨fun s => 10 * s, 3⟩
-    ((applyHandled "cat" st 1 99).map fun r => ((List.range 4).map r.1.mem, r.1.next, r.2)) = some ([0, 10, 20, 99], 4, 3) ∧
-    ((applyHandled "copy_" st 1 99).map fun r => ((List.range 4).map r.1.mem, r.1.next, r.2)) = some ([0, 99, 20, 30], 3, 1) ∧
-    ((applyHandled "permute" st 1 99).map fun r => ((List.range 4).map r.1.mem, r.1.next, r.2)) = some ([0, 10, 20, 30], 3, 1) := by decide
-
-/-! ## `retain_ltype` / `func.jacrev`: the patch is undone on every exit path -/
+Generic development (any home policy `H`, a set iteration order per context, try/except in bodies) in
+`Proofs/Lemmas/Batch.lean`.  The code as it is (since the D44 repair) is the policy `homeSlot`: saved `(module, name, function)`
+triples, wrap in place, restore in place.  `homeCur` is the code before D44 (restoring by `(__module__, __name__)` look-ups after
+rewriting `_add_batch_dim.__module__`); its instance theorems are kept because reverting D44 is a rehearsed mutation. -/
 namespace Retain
 
-/-- the `nest` case of `run` is a nested `retain` -/
-theorem run_nest (ord : List Nat) (t : Table) (inner k : Body) :
-    run ord t (.nest inner k) =
-      match retain ord t inner none with
-      | (t', .ok, log1) => let (t'', o, log) := run ord t' k; (t'', o, log1 ++ log)
-      | (t', .raised, log1) => (t', .raised, log1) := by
-  simp only [run, retain]
-  cases run ord (patch t (captured t ord)) inner with
-  | mk t1 ol => cases ol with
-    | mk o l => cases o <;> rfl
+/-- **`retain_restores`.** For every body — any number of wrapped calls, any nesting of further contexts (each with its own
+order), try/except around any part, returning or raising at any point, even an exception inside the patch loop (`failAt`) —
+EVERY slot, the three patched ones and anything else in the touched modules, holds after the context exactly what it held
+before.  No hypothesis on the table: whatever sits in the slots (originals, wrappers of an enclosing context, somebody else's
+monkey-patch) comes back. -/
+theorem retain_restores (ord : List Nat) (hord : ∀ s ∈ ord, s < 3) (t : Table) (body : Body) (hb : body.ok)
+    (failAt : Option Nat) : ∀ q, (retain homeSlot ord t body failAt).1 q = t q :=
+  retain_restores_all_bySlot' ord hord t body hb failAt
 
-/-- running a body never changes a protected slot, given that every `retain` inside it restores -/
-theorem run_preserves (ord : List Nat) (h3 : 3 ∉ ord) : ∀ (b : Body) (t : Table), WellHomed ord t →
-    ∀ q, q ≠ 3 → (run ord t b).1 q = t q := by
-  -- the statement for `retain` with body `b` follows from the statement for `run` with body `b`
-  have retain_of_run : ∀ (b : Body), (∀ t, WellHomed ord t → ∀ q, q ≠ 3 → (run ord t b).1 q = t q) →
-      ∀ t (fa : Option Nat), WellHomed ord t → ∀ q, q ≠ 3 → (retain ord t b fa).1 q = t q := by
-    intro b hb t fa hw q hq
-    have hcap : ∀ f ∈ captured t ord, ∃ s ∈ ord, f = t s := by
-      intro f hf
-      obtain ⟨s, hs, rfl⟩ := List.mem_map.mp hf
-      exact ⟨s, hs, rfl⟩
-    -- all captured functions whose home is q are `t q`
-    have huniq : ∀ f ∈ captured t ord, home f = q → f = t q := by
-      intro f hf hh
-      obtain ⟨s, hs, rfl⟩ := hcap f hf
-      rcases hw s hs with h | h
-      · rw [h] at hh; rw [hh]
-      · rw [h] at hh; exact absurd hh.symm hq
-    -- final value of slot q after `restore t' fs`, for any t' that agrees with a patched table off slot 3
-    have fin : ∀ (t' : Table), (∀ q', q' ≠ 3 → (∀ f ∈ captured t ord, home f ≠ q') → t' q' = t q') →
-        restore t' (captured t ord) q = t q := by
-      intro t' ht'
-      by_cases hex : ∃ f ∈ captured t ord, home f = q
-      · exact restore_hit _ _ q (t q) hex huniq
-      · have hno : ∀ f ∈ captured t ord, home f ≠ q := fun f hf hh => hex ⟨f, hf, hh⟩
-        rw [restore_other _ _ q hno]
-        exact ht' q hq hno
-    unfold retain
-    cases fa with
-    | some j =>
-      simp only
-      apply fin
-      intro q' _ hno
-      exact patch_other _ _ q' (fun f hf => hno f (List.mem_of_mem_take hf))
-    | none =>
-      simp only
-      apply fin
-      intro q' hq' hno
-      rw [hb _ (wellHomed_patch _ hw) q' hq']
-      exact patch_other _ _ q' hno
-  intro b
-  induction b with
-  | ret => intro t _ q _; simp [run]
-  | raise => intro t _ q _; simp [run]
-  | call s k ih => intro t hw q hq; simp only [run]; exact ih t hw q hq
-  | nest inner k ihi ihk =>
-    intro t hw q hq
-    have hret := retain_of_run inner ihi t none hw
-    rw [run_nest]
-    cases hr : retain ord t inner none with
-    | mk t' ol =>
-      obtain ⟨o, l⟩ := ol
-      rw [hr] at hret
-      simp only at hret
-      cases o with
-      | ok =>
-        simp only
-        rw [ihk t' (wellHomed_congr h3 hret hw) q hq]
-        exact hret q hq
-      | raised => simp only; exact hret q hq
+/-- **No state leaks between calls**: any history of contexts (reuse of the decorator / of one jacrev wrapper), each with its
+own order, body and outcome, leaves every slot as it was before the first -/
+theorem retain_history : ∀ (hist : List (List Nat × Body × Option Nat)) (t : Table),
+    (∀ e ∈ hist, (∀ s ∈ e.1, s < 3) ∧ e.2.1.ok) → ∀ q, history homeSlot t hist q = t q
+  | [], _, _, _ => rfl
+  | (ord, b, fa) :: rest, t, hh, q => by
+    simp only [history]
+    have he := hh (ord, b, fa) List.mem_cons_self
+    have h1 := retain_restores ord he.1 t b he.2 fa
+    have : (retain homeSlot ord t b fa).1 = t := funext h1
+    rw [this]
+    exact retain_history rest t (fun e hm => hh e (List.mem_cons_of_mem _ hm)) q
 
-/-- **`retain_restores`.** For every body — any number of wrapped calls, any nesting of further
-`retain_ltype` contexts (nested `jacrev`), returning or raising at any point, even an exception inside the
-patch loop itself (`failAt`) — and every iteration order of the `TO_BE_WRAPPED` set: after the context exits,
-every torch slot holds exactly what it held before. (Slot 3, `pypose.lietensor.lietensor.wrapper`, is *not*
-restored by a nested context — it is not a PyTorch internal.) -/
-theorem retain_restores (ord : List Nat) (h3 : 3 ∉ ord) (t : Table) (hw : WellHomed ord t) (body : Body)
-    (failAt : Option Nat) : ∀ q, q ≠ 3 → (retain ord t body failAt).1 q = t q := by
-  intro q hq
-  have hrun := run_preserves ord h3 body
-  -- same argument as inside `run_preserves`
-  have hcap : ∀ f ∈ captured t ord, ∃ s ∈ ord, f = t s := by
-    intro f hf
-    obtain ⟨s, hs, rfl⟩ := List.mem_map.mp hf
-    exact ⟨s, hs, rfl⟩
-  have huniq : ∀ f ∈ captured t ord, home f = q → f = t q := by
-    intro f hf hh
-    obtain ⟨s, hs, rfl⟩ := hcap f hf
-    rcases hw s hs with h | h
-    · rw [h] at hh; rw [hh]
-    · rw [h] at hh; exact absurd hh.symm hq
-  have fin : ∀ (t' : Table), (∀ q', q' ≠ 3 → (∀ f ∈ captured t ord, home f ≠ q') → t' q' = t q') →
-      restore t' (captured t ord) q = t q := by
-    intro t' ht'
-    by_cases hex : ∃ f ∈ captured t ord, home f = q
-    · exact restore_hit _ _ q (t q) hex huniq
-    · have hno : ∀ f ∈ captured t ord, home f ≠ q := fun f hf hh => hex ⟨f, hf, hh⟩
-      rw [restore_other _ _ q hno]
-      exact ht' q hq hno
-  unfold retain
-  cases failAt with
-  | some j =>
-    simp only
-    apply fin
-    intro q' _ hno
-    exact patch_other _ _ q' (fun f hf => hno f (List.mem_of_mem_take hf))
-  | none =>
-    simp only
-    apply fin
-    intro q' hq' hno
-    rw [hrun _ (wellHomed_patch _ hw) q' hq']
-    exact patch_other _ _ q' hno
+/-- **A failing call is atomic**: a context that failed in any way, followed by a second one, IS the second one alone —
+same table, same outcome, same call log -/
+theorem retain_atomic (ord1 ord2 : List Nat) (h1 : ∀ s ∈ ord1, s < 3) (t : Table) (b1 b2 : Body) (hb1 : b1.ok) (fa : Option Nat) :
+    retain homeSlot ord2 (retain homeSlot ord1 t b1 fa).1 b2 none = retain homeSlot ord2 t b2 none := by
+  have : (retain homeSlot ord1 t b1 fa).1 = t := funext (retain_restores ord1 h1 t b1 hb1 fa)
+  rw [this]
 
-/-- The context manager does not swallow the exception: the outcome of the `with` block is the body's. -/
-theorem retain_outcome (ord : List Nat) (t : Table) (body : Body) :
-    (retain ord t body none).2.1 = (run ord (patch t (captured t ord)) body).2.1 := by
-  unfold retain; simp only
-
-/-- Inside the body the three slots really are patched (the theorem above is not vacuous): from the
-pristine table every slot of `ord` holds a wrapper of its original. -/
-theorem retain_patches (ord : List Nat) (hnd : ord.Nodup) (s : Nat) (hs : s ∈ ord) :
-    patch (fun q => Fn.orig q) (captured (fun q => Fn.orig q) ord) s = Fn.wrap (Fn.orig s) := by
-  induction ord with
-  | nil => simp at hs
-  | cons a rest ih =>
-    simp only [captured, List.map_cons, patch, home]
-    rcases List.mem_cons.mp hs with rfl | hs'
-    · have hno : ∀ f ∈ List.map (fun q => Fn.orig q) rest, home f ≠ s := by
-        intro f hf
-        obtain ⟨q, hq, rfl⟩ := List.mem_map.mp hf
-        simp only [home]
-        intro e; subst e
-        exact (List.nodup_cons.mp hnd).1 hq
-      rw [patch_other _ _ s hno]
-      simp [Table.set]
-    · -- the first write touches slot a ≠ s; continue with the rest
-      have hne : s ≠ a := by intro e; subst e; exact (List.nodup_cons.mp hnd).1 hs'
-      have gen : ∀ (fs : List Fn) (u u' : Table), (∀ q, q ≠ a → u q = u' q) → ∀ q, q ≠ a → (∀ f ∈ fs, home f ≠ a) →
-          patch u fs q = patch u' fs q := by
-        intro fs
-        induction fs with
-        | nil => intro u u' h q hq _; exact h q hq
-        | cons f fs ihf =>
-          intro u u' h q hq hno
-          simp only [patch]
-          apply ihf _ _ _ q hq (fun g hg => hno g (List.mem_cons_of_mem _ hg))
-          intro q' hq'
-          simp only [Table.set]
-          split
-          · rfl
-          · exact h q' hq'
-      have hno : ∀ f ∈ List.map (fun q => Fn.orig q) rest, home f ≠ a := by
-        intro f hf
-        obtain ⟨q, hq, rfl⟩ := List.mem_map.mp hf
-        simp only [home]
-        intro e; subst e
-        exact (List.nodup_cons.mp hnd).1 hq
-      rw [gen _ _ (fun q => Fn.orig q) (by intro q hq; simp [Table.set, hq]) s hne hno]
-      exact ih (List.nodup_cons.mp hnd).2 hs'
-
-theorem pristine_wellHomed (ord : List Nat) : WellHomed ord pristine := by
-  intro s _; left; rfl
-
-/-- From the pristine table the theorem applies to every body: unconditional form of `retain_restores`. -/
-theorem retain_restores_pristine (ord : List Nat) (h3 : 3 ∉ ord) (body : Body) (failAt : Option Nat) :
-    ∀ q, q ≠ 3 → (retain ord pristine body failAt).1 q = Fn.orig q :=
-  retain_restores ord h3 pristine (pristine_wellHomed ord) body failAt
-
-theorem patched_wellHomed {ord : List Nat} {t : Table} (h : Patched ord t) : WellHomed ord t := by
-  intro s hs; right; rw [h s hs]; rfl
-
-theorem captured_home3 {ord : List Nat} {t : Table} (h : Patched ord t) : ∀ f ∈ captured t ord, home f = 3 := by
-  intro f hf
-  obtain ⟨s, hs, rfl⟩ := List.mem_map.mp hf
-  rw [h s hs]; rfl
-
-/-- **Inside the context every call finds a wrapper** — at any nesting depth, before or after inner contexts
-have exited or raised: the log of a body run in a patched table consists of wrappers of originals only. -/
-theorem run_log_wrapped (ord : List Nat) (h3 : 3 ∉ ord) : ∀ (b : Body) (t : Table), Patched ord t → b.callsIn ord →
-    ∀ f ∈ (run ord t b).2.2, ∃ s ∈ ord, f = Fn.wrap (Fn.orig s) := by
-  intro b
-  induction b with
-  | ret => intro t _ _ f hf; simp [run] at hf
-  | raise => intro t _ _ f hf; simp [run] at hf
-  | call s k ih =>
-    intro t hp hc f hf
-    simp only [Body.callsIn] at hc
-    simp only [run, List.mem_cons] at hf
-    rcases hf with rfl | hf
-    · exact ⟨s, hc.1, hp s hc.1⟩
-    · exact ih t hp hc.2 f hf
-  | nest inner k ihi ihk =>
-    intro t hp hc f hf
-    simp only [Body.callsIn] at hc
-    have hh3 := captured_home3 hp
-    have hne : ∀ s ∈ ord, ∀ g ∈ captured t ord, home g ≠ s := by
-      intro s hs g hg e
-      rw [hh3 g hg] at e
-      exact h3 (e ▸ hs)
-    have hp1 : Patched ord (patch t (captured t ord)) := by
-      intro s hs
-      rw [patch_other _ _ s (hne s hs)]; exact hp s hs
-    have hpres := run_preserves ord h3 inner _ (patched_wellHomed hp1)
-    simp only [run] at hf
-    cases hr : run ord (patch t (captured t ord)) inner with
-    | mk t1 ol =>
-      obtain ⟨o, l⟩ := ol
-      have hl : ∀ g ∈ l, ∃ s ∈ ord, g = Fn.wrap (Fn.orig s) := by
-        have := ihi _ hp1 hc.1
-        rw [hr] at this
-        exact this
-      rw [hr] at hf hpres
-      simp only at hpres
-      cases o with
-      | raised => simp only at hf; exact hl f hf
-      | ok =>
-        simp only at hf
-        have hp2 : Patched ord (restore t1 (captured t ord)) := by
-          intro s hs
-          have hs3 : s ≠ 3 := fun e => h3 (e ▸ hs)
-          rw [restore_other _ _ s (hne s hs), hpres s hs3]
-          exact hp1 s hs
-        rcases List.mem_append.mp hf with h1 | h2
-        · exact hl f h1
-        · exact ihk _ hp2 hc.2 f h2
-
-/-- `retain_ltype()` entered from the pristine table: every call made by the body (any nesting, any point) finds
-the wrapper of the original — and afterwards the originals are back (`retain_restores`). -/
-theorem retain_calls_wrapped (ord : List Nat) (hnd : ord.Nodup) (h3 : 3 ∉ ord) (body : Body) (hc : body.callsIn ord) :
-    ∀ f ∈ (retain ord (fun q => Fn.orig q) body none).2.2, ∃ s ∈ ord, f = Fn.wrap (Fn.orig s) := by
-  have hp : Patched ord (patch (fun q => Fn.orig q) (captured (fun q => Fn.orig q) ord)) :=
-    fun s hs => retain_patches ord hnd s hs
-  have := run_log_wrapped ord h3 body _ hp hc
+/-- **Inside the context every call finds a wrapper** — entered with any table and any full order: at any nesting depth
+(a nested context wraps the wrapper once more), under try/except, before or after inner contexts exited or raised -/
+theorem retain_calls_wrapped (ord : List Nat) (hord : okOrd ord) (t : Table) (body : Body) (hb : body.ok) :
+    ∀ f ∈ (retain homeSlot ord t body none).2.2, ∃ g, f = Fn.wrap g := by
+  have hw : Wrapped (patch homeSlot t (captured t ord)) := by
+    intro s hs
+    -- slot s occurs in the order, and by-slot patching writes `wrap (·)` into it
+    have gen : ∀ (l : List Nat) (u : Table), s ∈ l → ∃ g, patch homeSlot u (captured t l) s = Fn.wrap g := by
+      intro l
+      induction l with
+      | nil => intro u h; simp at h
+      | cons a rest ih =>
+        intro u h
+        simp only [captured, List.map_cons, patch, homeSlot]
+        by_cases hr : s ∈ rest
+        · exact ih _ hr
+        · have ha : s = a := by rcases List.mem_cons.mp h with h | h; exact h; exact absurd h hr
+          subst ha
+          have hno : ∀ c ∈ List.map (fun q => (q, t q)) rest, homeSlot c.1 c.2 ≠ s := by
+            intro c hc
+            obtain ⟨q, hq, rfl⟩ := List.mem_map.mp hc
+            simp only [homeSlot]
+            intro e; subst e; exact hr hq
+          have := patch_other homeSlot (List.map (fun q => (q, t q)) rest) (u.set s (Fn.wrap (t s))) s hno
+          show ∃ g, patch homeSlot (u.set s (Fn.wrap (t s))) (List.map (fun q => (q, t q)) rest) s = Fn.wrap g
+          rw [this]
+          exact ⟨t s, by simp [Table.set]⟩
+    exact gen ord t (hord.2 s hs)
+  have := (run_log_wrappers' homeSlot body _ hw hb).2
   unfold retain
   simp only
   exact this
 
-/-- **No state leaks between calls**: after any history of contexts — any bodies, any outcomes, faults in the
-patch loop — every torch slot holds what it held before the first one. -/
-theorem retain_history (ord : List Nat) (h3 : 3 ∉ ord) : ∀ (hist : List (Body × Option Nat)) (t : Table),
-    WellHomed ord t → ∀ q, q ≠ 3 → history ord t hist q = t q
-  | [], _, _, _, _ => rfl
-  | (b, fa) :: rest, t, hw, q, hq => by
-    simp only [history]
-    have h1 := retain_restores ord h3 t hw b fa
-    rw [retain_history ord h3 rest _ (wellHomed_congr h3 h1 hw) q hq]
-    exact h1 q hq
+/-- **Why D44 was a defect (the reverted code, `homeCur`)**: one context nested in another — whatever the two iteration orders —
+left `torch._functorch.vmap.wrapper` (slot 4) holding the outer wrapper after both had exited, although the three patched slots
+were back.  Reproduced on the pre-D44 implementation (`hasattr(torch._functorch.vmap, 'wrapper')` False → True); the revert of
+D44 is a rehearsed mutation of the check. -/
+theorem nested_leaks_cur : ∀ o1 ∈ orders, ∀ o2 ∈ orders,
+    (retain homeCur o1 pristine (.nest o2 .ret .ret) none).1 4 = Fn.wrap (Fn.orig 2) ∧
+    (retain homeCur o1 pristine (.nest o2 .ret .ret) none).1 4 ≠ pristine 4 ∧
+    ∀ q, q < 3 → (retain homeCur o1 pristine (.nest o2 .ret .ret) none).1 q = pristine q := nested_leaks_cur'
 
-/-- what a body does depends only on the torch slots: two tables that agree off slot 3 give the same outcome, the same
-call log and tables that again agree off slot 3 -/
-theorem run_congr (ord : List Nat) (h3 : 3 ∉ ord) : ∀ (b : Body) (t t' : Table), (∀ q, q ≠ 3 → t q = t' q) → b.callsIn ord →
-    (∀ q, q ≠ 3 → (run ord t b).1 q = (run ord t' b).1 q) ∧ (run ord t b).2 = (run ord t' b).2 := by
-  intro b
-  induction b with
-  | ret => intro t t' h _; exact ⟨by simpa [run] using h, by simp [run]⟩
-  | raise => intro t t' h _; exact ⟨by simpa [run] using h, by simp [run]⟩
-  | call s k ih =>
-    intro t t' h hc
-    simp only [Body.callsIn] at hc
-    obtain ⟨i1, i2⟩ := ih t t' h hc.2
-    have hs : t s = t' s := h s (fun e => h3 (e ▸ hc.1))
-    refine ⟨by simpa [run] using i1, ?_⟩
-    simp only [run]
-    rw [hs]
-    have : (run ord t k).2 = (run ord t' k).2 := i2
-    rw [Prod.ext_iff] at this
-    simp [this.1, this.2]
-  | nest inner k ihi ihk =>
-    intro t t' h hc
-    simp only [Body.callsIn] at hc
-    have hcap := captured_congr ord h3 t t' h
-    have hp := patch_congr (captured t ord) t t' h
-    obtain ⟨j1, j2⟩ := ihi _ _ hp hc.1
-    simp only [run]
-    rw [← hcap]
-    cases hr : run ord (patch t (captured t ord)) inner with
-    | mk t1 ol =>
-      cases hr' : run ord (patch t' (captured t ord)) inner with
-      | mk t1' ol' =>
-        rw [hr, hr'] at j1 j2
-        simp only at j1 j2
-        subst j2
-        obtain ⟨o, l⟩ := ol
-        have hrest := restore_congr (captured t ord) t1 t1' j1
-        cases o with
-        | raised => exact ⟨by simpa using hrest, rfl⟩
-        | ok =>
-          simp only
-          obtain ⟨m1, m2⟩ := ihk _ _ hrest hc.2
-          refine ⟨m1, ?_⟩
-          rw [Prod.ext_iff] at m2
-          simp [m2.1, m2.2]
+/-- the reverted code still restored the three patched slots (that is all the old check looked at) -/
+theorem retain_restores_slots_cur (ord : List Nat) (hord : ∀ s ∈ ord, s < 3) (t : Table) (hw : WellHomed homeCur t) (body : Body)
+    (hb : body.ok) (failAt : Option Nat) : ∀ q, q < 3 → (retain homeCur ord t body failAt).1 q = t q :=
+  retain_restores' homeCur homeCur_wrapOk ord hord t hw body hb failAt
 
-/-- **A failing call is atomic.** A context that failed in any way (its body raised anywhere, or the patch loop itself
-raised) followed by a second context behaves exactly like the second context alone: same outcome, same call log, same
-torch slots afterwards. -/
-theorem retain_atomic (ord : List Nat) (h3 : 3 ∉ ord) (t : Table) (hw : WellHomed ord t) (b1 b2 : Body) (fa : Option Nat)
-    (hc : b2.callsIn ord) :
-    let t1 := (retain ord t b1 fa).1
-    (retain ord t1 b2 none).2 = (retain ord t b2 none).2 ∧ ∀ q, q ≠ 3 → (retain ord t1 b2 none).1 q = (retain ord t b2 none).1 q := by
-  intro t1
-  have h1 : ∀ q, q ≠ 3 → t1 q = t q := retain_restores ord h3 t hw b1 fa
-  have hcap := captured_congr ord h3 t1 t h1
-  have hp := patch_congr (captured t1 ord) t1 t h1
-  obtain ⟨r1, r2⟩ := run_congr ord h3 b2 _ _ hp hc
-  unfold retain
-  simp only
-  rw [← hcap]
-  cases hr : run ord (patch t1 (captured t1 ord)) b2 with
-  | mk u ol =>
-    cases hr' : run ord (patch t (captured t1 ord)) b2 with
-    | mk u' ol' =>
-      rw [hr, hr'] at r1 r2
-      simp only at r1 r2
-      subst r2
-      exact ⟨rfl, restore_congr _ u u' r1⟩
-
-theorem depth_nestN (n : Nat) (b : Body) : (nestN n b).depth = n + b.depth ∨ (nestN n b).depth = max n (n + b.depth) := by
-  induction n with
-  | zero => left; simp [nestN]
-  | succ n ih =>
-    left
-    simp only [nestN, Body.depth]
-    rcases ih with h | h <;> rw [h] <;> omega
-
-/-- **Nesting of arbitrary depth**: `n` contexts inside one another around any body (which may itself nest, call and raise)
-— for every `n` the torch slots are restored, and the exception of the innermost body reaches the outside. -/
-theorem retain_restores_depth (ord : List Nat) (h3 : 3 ∉ ord) (n : Nat) (b : Body) (fa : Option Nat) :
-    ∀ q, q ≠ 3 → (retain ord pristine (nestN n b) fa).1 q = Fn.orig q :=
-  retain_restores_pristine ord h3 (nestN n b) fa
-
-example : (nestN 7 (.call 1 .raise)).depth = 7 ∧
-    (List.range 3).map (retain [1, 2, 0] pristine (nestN 7 (.call 1 .raise)) none).1 = [Fn.orig 0, Fn.orig 1, Fn.orig 2] ∧
-    (retain [1, 2, 0] pristine (nestN 7 (.call 1 .raise)) none).2.1 = Outcome.raised := by decide
-
-example : let t0 : Table := fun q => Fn.orig q
-    let r := retain [2, 0, 1] t0 (.call 0 (.nest (.call 1 .raise) .ret)) none
-    ((List.range 3).map r.1 = (List.range 3).map t0) ∧ r.2.1 = Outcome.raised ∧ r.1 3 ≠ t0 3 ∧
-      r.2.2 = [Fn.wrap (Fn.orig 0), Fn.wrap (Fn.orig 1)] := by decide
+example : (retain homeSlot [2, 0, 1] pristine (.call 0 (.nest [1, 2, 0] (.call 1 .raise) .ret)) none).2 =
+      (Outcome.raised, [Fn.wrap (Fn.orig 0), Fn.wrap (Fn.wrap (Fn.orig 1))]) ∧
+    (retain homeSlot [2, 0, 1] pristine (.try_ (.nest [0, 1, 2] (.call 2 .raise) .ret) (.call 1 .ret) .ret) none).2 =
+      (Outcome.ok, [Fn.wrap (Fn.wrap (Fn.orig 2)), Fn.wrap (Fn.orig 1)]) ∧
+    (List.range 5).map (retain homeSlot [2, 0, 1] pristine (nestN [1, 0, 2] 7 (.call 1 .raise)) none).1 = (List.range 5).map pristine ∧
+    (List.range 5).map (retain homeCur [2, 0, 1] pristine (nestN [1, 0, 2] 7 (.call 1 .raise)) none).1 =
+      [Fn.orig 0, Fn.orig 1, Fn.orig 2, Fn.wrap (Fn.orig 0), Fn.wrap (Fn.orig 2)] := by
+  decide
 
 end Retain
 
